@@ -61,9 +61,10 @@ def ensure_facts(repo=None):
                 raise ExtractError(r.stdout + r.stderr)
             subprocess.run(["rm", "-rf", out])
             os.rename(tmp, out)
-            # keep the cache small: drop all but the 6 most recent fact dirs
-            ds = sorted((os.path.join(CACHE, "facts", d) for d in os.listdir(os.path.join(CACHE, "facts"))), key=os.path.getmtime)
-            for d in ds[:-6]:
+            # keep the cache bounded: drop all but the 120 most recent fact dirs (about 4 MB each); parallel mutant
+            # replays must not evict each other's facts while they are still being read
+            ds = sorted((os.path.join(CACHE, "facts", d) for d in os.listdir(os.path.join(CACHE, "facts")) if ".tmp" not in d), key=os.path.getmtime)
+            for d in ds[:-120]:
                 subprocess.run(["rm", "-rf", d])
     finally:
         fcntl.flock(lock, fcntl.LOCK_UN)
